@@ -41,6 +41,10 @@ type Scenario struct {
 	Tasks  [][]Sec `json:"tasks"`
 	Clear  []int   `json:"clear,omitempty"`
 	Phase2 [][]Sec `json:"phase2,omitempty"`
+	// Clearer > 0: a further task uses a key of its own (index Keys, which nobody
+	// else touches, so nobody holds or awaits it), and calls ClearKey on it after
+	// Clearer-1 yields, while the other tasks hold and await their keys
+	Clearer int `json:"clearer,omitempty"`
 }
 
 type event struct {
@@ -79,6 +83,9 @@ func (H) Describe(sc any) string {
 	x := fmt.Sprintf("%s keys=%d tasks=%v", t, s.Keys, s.Tasks)
 	if len(s.Phase2) > 0 {
 		x += fmt.Sprintf(" clear=%v phase2=%v", s.Clear, s.Phase2)
+	}
+	if s.Clearer > 0 {
+		x += fmt.Sprintf(" clearer(after %d yields)", s.Clearer-1)
 	}
 	return x
 }
@@ -120,6 +127,9 @@ func genTasks(r *simrt.Rand, rw bool, keys int, nest bool) [][]Sec {
 func (H) Generate(r *simrt.Rand, tier string) any {
 	s := &Scenario{RW: r.Intn(2) == 0, Keys: 1 + r.Intn(3)}
 	thorough = tier == "thorough"
+	if r.Intn(4) == 0 {
+		s.Clearer = 1 + r.Intn(12)
+	}
 	switch r.Intn(10) {
 	case 0, 1, 2: // fault: one holder stalls forever; nobody nests
 		s.Tasks = genTasks(r, s.RW, s.Keys, false)
@@ -156,7 +166,7 @@ func cloneSecs(in []Sec) []Sec {
 func (H) Shrink(sc any) []any {
 	s := sc.(*Scenario)
 	clone := func() *Scenario {
-		c := &Scenario{RW: s.RW, Keys: s.Keys, Clear: append([]int(nil), s.Clear...)}
+		c := &Scenario{RW: s.RW, Keys: s.Keys, Clear: append([]int(nil), s.Clear...), Clearer: s.Clearer}
 		for _, t := range s.Tasks {
 			c.Tasks = append(c.Tasks, cloneSecs(t))
 		}
@@ -170,6 +180,16 @@ func (H) Shrink(sc any) []any {
 		c := clone()
 		c.Phase2, c.Clear = nil, nil
 		out = append(out, c)
+	}
+	if s.Clearer > 0 {
+		c := clone()
+		c.Clearer = 0
+		out = append(out, c)
+		if s.Clearer > 1 {
+			c := clone()
+			c.Clearer = 1
+			out = append(out, c)
+		}
 	}
 	for i := range s.Tasks {
 		c := clone()
@@ -322,7 +342,9 @@ func (r *run) section(t int, s Sec) {
 func (H) Execute(scAny any, cfg simrt.Config, st *core.Stats) (*simrt.Outcome, *core.Violation) {
 	sc := scAny.(*Scenario)
 	nt := len(sc.Tasks) + len(sc.Phase2)
-	r := &run{writers: make([]int, sc.Keys), readers: make([]int, sc.Keys), witness: make([]int, sc.Keys),
+	nk := sc.Keys + 1 // one more key for the clearer
+	clearerDone := sc.Clearer == 0
+	r := &run{writers: make([]int, nk), readers: make([]int, nk), witness: make([]int, nk),
 		events: make([][]event, nt), finished: make([]bool, nt), stalled: make([]bool, nt)}
 	if sc.RW {
 		r.l = &rwm{}
@@ -347,6 +369,25 @@ func (H) Execute(scAny any, cfg simrt.Config, st *core.Stats) (*simrt.Outcome, *
 			}
 			wg.Wait()
 		}
+		if sc.Clearer > 0 {
+			simrt.Go(func() {
+				idle := sc.Keys
+				if r.l.acquire(idle, "lock") {
+					r.l.release(idle, "lock")
+				}
+				for i := 1; i < sc.Clearer; i++ {
+					simrt.Yield()
+				}
+				simrt.Count("fault.clearkey_idle_midflight", 1)
+				r.l.clear(idle)
+				if r.l.acquire(idle, "trylock") {
+					r.l.release(idle, "trylock")
+				} else {
+					r.viol = "TryLockKey of a key nobody else uses failed right after ClearKey"
+				}
+				clearerDone = true
+			})
+		}
 		phase(0, sc.Tasks)
 		if len(sc.Phase2) > 0 {
 			// nobody holds or awaits any key here: the only situation in which the
@@ -366,7 +407,14 @@ func (H) Execute(scAny any, cfg simrt.Config, st *core.Stats) (*simrt.Outcome, *
 		return out, nil
 	}
 	if r.viol != "" {
-		return out, &core.Violation{Signature: "mutual-exclusion", Detail: r.viol}
+		sig := "mutual-exclusion"
+		if strings.HasPrefix(r.viol, "TryLockKey of a key nobody") {
+			sig = "try-failed-while-free"
+		}
+		return out, &core.Violation{Signature: sig, Detail: r.viol}
+	}
+	if !clearerDone {
+		return out, &core.Violation{Signature: "cross-key-blocking", Detail: "the task that only ever touches a key of its own (LockKey, UnlockKey, ClearKey, TryLockKey) is blocked forever: " + strings.Join(out.StuckTasks, ", ")}
 	}
 	return out, r.check(sc, out)
 }
